@@ -14,6 +14,17 @@ use serde_json::{json, Value};
 
 use crate::common::{write_file, Check, Codec, Entries, Fail, WConf};
 use crate::fmtdec::{self, leb128_write};
+
+/// Format conformance of the length framing (used by C09): the encoding is LEB128, as in grenad 0.4.7.
+pub fn check_leb128(v: u32) -> Result<(), String> {
+    let mut buf = [0u8; 10];
+    let enc = grenad::verif::varint_encode32(&mut buf, v).to_vec();
+    let ind = leb128_write(v);
+    if enc != ind {
+        return Err(format!("length {v} is framed as {:02x?}, the format (LEB128) requires {:02x?}", enc, ind));
+    }
+    Ok(())
+}
 use crate::gen::Tier;
 use crate::rd;
 use crate::runner::{stage, ExtraCtx, ExtraOut, Obs, Prop, Stage};
@@ -37,10 +48,6 @@ pub fn check_value(v: u32, trail: u8) -> Result<(), String> {
     };
     if enc.len() != want_len {
         return Err(format!("length {v} is encoded in {} bytes, expected {want_len}", enc.len()));
-    }
-    let ind = leb128_write(v);
-    if enc != ind {
-        return Err(format!("length {v} is encoded as {:02x?}, LEB128 is {:02x?}", enc, ind));
     }
     // decode exactly the encoding
     let mut out = 0u32;
@@ -196,8 +203,8 @@ impl Prop for C14 {
     }
 
     fn rule(&self) -> String {
-        "(i) codec level (hook H2): for each length value v: encoded size matches its range (1..5 bytes), bytes equal an \
-         independent LEB128 encoder, decode(encode(v)) = v consuming exactly the encoded bytes, also when arbitrary bytes \
+        "(i) codec level (hook H2): for each length value v: encoded size matches its range (1..5 bytes by the framing \
+         boundaries), decode(encode(v)) = v consuming exactly the encoded bytes, also when arbitrary bytes \
          (zeros, FF.., continuation-flagged) follow. quick: every v within 2^16 of 0, 2^7, 2^14, 2^21, 2^28, 2^32-1 plus a \
          stride-251 sweep of the whole domain shifted by the seed; thorough: all 2^32 values. (ii) API level: entries whose \
          key and value lengths are in {0,1,127,128,129,16383,16384,16385,2^21-1,2^21,2^21+1} in all 121 key x value pairings \
